@@ -53,7 +53,7 @@ def gen_layout(rng, allow_dynamic=True, max_total=768):
         if total <= max_total:
             break
     positions = [(d, k) for d in range(rank) for k in range(depths[d])]
-    mode = rng.choice(["lattice", "lattice", "padded", "random", "repeat", "rowmajor"])
+    mode = rng.choice(["lattice", "lattice", "padded", "random", "repeat", "rowmajor", "collide", "collide"])
     steps = {}
     if mode in ("lattice", "padded", "rowmajor"):
         order = list(positions)
@@ -67,6 +67,17 @@ def gen_layout(rng, allow_dynamic=True, max_total=768):
             cur = cur * bounds[d][k]
             if mode == "padded" and rng.random() < 0.4:
                 cur += rng.choice([1, 2, 8])
+    elif mode == "collide":
+        # per dimension, every step is one of the extents (step*bound) / steps already present further in:
+        # exercises squashing decisions against merged and un-merged neighbours (overlapping layouts included)
+        for d in range(rank):
+            base = rng.choice([1, 1, 2, 8])
+            pool = [base]
+            for k in reversed(range(depths[d])):
+                st = rng.choice(pool)
+                steps[(d, k)] = st
+                pool.append(st * bounds[d][k])
+                pool.append(st)
     elif mode == "random":
         for p in positions:
             steps[p] = rng.choice([1, 2, 3, 4, 5, 7, 8, 16, 32, 64, 100, -1, -4])
@@ -295,6 +306,10 @@ def correspondence(ctx):
             continue
         for idx in lists[0]:
             dis.append({"name": f"L1:{k}", "case": meta[k][idx], "coq_case": cases[k][idx][:600]})
+            m = meta[k][idx]
+            # layouts on which model and code disagree are the first inputs the property search tries
+            if isinstance(m, tuple) and m and isinstance(m[0], list) and m[0] and isinstance(m[0][0], list):
+                ctx.extra.setdefault("_suspects", []).append((m[0], m[1] if len(m) > 1 and not isinstance(m[1], list) else 0))
     return dis
 
 
@@ -571,6 +586,13 @@ def search(ctx, deep=False):
     rng = ctx.rng
     n = ctx.n(200, 3000) * (3 if deep else 1)
     fails = []
+    for (ts, off) in ctx.extra.pop("_suspects", [])[:200]:
+        try:
+            ts = [[tuple(sb) for sb in t] for t in ts]
+            for what, detail, klass in check_layout(ts, off if (off is None or isinstance(off, int)) else 0):
+                fails.append({"what": what, "layout": [ts, off], "detail": detail, "klass": klass, "from": "L1 suspect"})
+        except Exception:
+            pass
     for i in range(n):
         ts, off = gen_layout(rng, allow_dynamic=(i % 3 == 0), max_total=512)
         sizes = [_prod(b for (_, b) in t if b) * (rng.choice([1, 2, 3, 5]) if t[0][1] is None else 1) for t in ts]
